@@ -828,7 +828,11 @@ def do_fetch(ctx, W, case, src_name, tgt_name, rev, find_ghosts, mode, batch):
             case = dict(case, owned_only=True)
     else:
         impl = outcome.split(":")[0] + ":" + outcome.split(":")[1]
-    if rev in pre_s["revs"] and corrupt:
+    if inter_name == "InterDifferingSerializer" and any(i not in pre_s["revs"] for i in pre_s["invs"]):
+        # InterDifferingSerializer chooses bases per revision from the trees it can read (also trees of ghost
+        # parents whose inventory the source happens to hold) and copies those inventories: not modelled
+        ctx.count("T2-skipped:InterDifferingSerializer-source-with-inventory-of-a-ghost")
+    elif rev in pre_s["revs"] and corrupt:
         ctx.count("T2-skipped:reported-by-the-oracle(%s)" % str(corrupt).split(":")[0])
     elif not (incompatible and outcome == "E:Incompatible"):
         batch.append((case, line, impl))
